@@ -11,7 +11,7 @@ R5  clause::get_reason / simplify / new_clause; enqueue's table.
 R6  first-UIP analysis: structural facts (seen-set, level split, asserting literal negated, back-jump level = max of lower levels).
 """
 from ..expr import LocalEnv, canon, show
-from ..facts import AnalysisBroken, short, src, walk
+from ..facts import AnalysisBroken, kids, short, src, walk
 from ..tables import enum_paths, switch_arms
 from .. import cfg, effects
 
@@ -301,45 +301,98 @@ def r4(ctx, fs):
     for p in enum_paths(loop[0]['slots']['body']):
         conds = tuple((canon(c[1], env, subst=False), c[2]) for c in p.conds if c[0] == 'if')
         got[conds] = ([show(canon(s, env, subst=False)) for s in p.stmts], p.end)
-    sat_c = ('||', ) + tuple(sorted((('==', ) + tuple(sorted((VAL(), 'smt::True'), key=repr)), ('==', ) + tuple(sorted((cur, ('!', 'p')), key=repr))), key=repr))
-    keep_c = ('&&', ) + tuple(sorted((('!=', ) + tuple(sorted((VAL(), 'smt::False'), key=repr)), ('!=', ) + tuple(sorted((cur, 'p'), key=repr))), key=repr))
-    want_keys = {((sat_c, True),), ((sat_c, False), (keep_c, True)), ((sat_c, False), (keep_c, False))}
-    ctx.instance(rid, [f.id, 'filter'], {'cells': {show(k): v for k, v in got.items()}})
-    ok = set(got) == want_keys and got[((sat_c, True),)] == ([show(('ReturnStmt', 'true'))], 'return') and got[((sat_c, False), (keep_c, False))] == ([], 'fall') and \
-        len(got[((sat_c, False), (keep_c, True))][0]) == 2
+    # the loop body as a decision function of four atomic tests on the current literal (any nesting / order / negation of the tests is the same function):
+    # T: value == True, C: literal == !p (complement of the previous one), F: value == False, D: literal == p (duplicate)
+    def atom(t, pol):
+        if isinstance(t, tuple) and t[0] in ('==', '!=') and len(t) == 3:
+            eq = (t[0] == '==') == pol
+            ops = set(t[1:])
+            if ops == {VAL(), 'smt::True'}:
+                return ('T', eq)
+            if ops == {VAL(), 'smt::False'}:
+                return ('F', eq)
+            if ops == {cur, ('!', 'p')}:
+                return ('C', eq)
+            if ops == {cur, 'p'}:
+                return ('D', eq)
+        return None
+    import itertools
+    ok = True
+    cells = {}
+    for conds, (stmts, end) in got.items():
+        part = {}
+        for t, pol in conds:
+            a = atom(t, pol)
+            if a is None:
+                ok = False
+                continue
+            part[a[0]] = a[1]
+        outcome = 'sat' if (end == 'return' and stmts == [show(('ReturnStmt', 'true'))]) else ('drop' if (end == 'fall' and not stmts) else ('keep' if end == 'fall' and len(stmts) == 2 else '?'))
+        for vals in itertools.product((False, True), repeat=4):
+            asg = dict(zip('TCFD', vals))
+            if any(asg[k] != v for k, v in part.items()):
+                continue
+            if asg['T'] and asg['F']:
+                continue        # a literal is not True and False at once
+            want = 'sat' if (asg['T'] or asg['C']) else ('keep' if not asg['F'] and not asg['D'] else 'drop')
+            cells[vals] = (want, outcome)
+            if want != outcome:
+                ok = False
+    ok = ok and len(cells) == 12
     if not ok:
         ctx.finding(rid, f.id, 'filter', 'sat_core::new_clause: the filtering loop must return true on a True literal or a complementary pair, keep a literal iff it is neither False nor a duplicate, and drop the others; found %s' % (
             {show(k): v for k, v in got.items()}), node=loop[0])
-    sw = [n for n in f.nodes() if n.get('k') == 'SwitchStmt']
-    if len(sw) != 1 or canon(sw[0]['slots']['cond'], env, subst=False) != ('mcall', 'std::vector<smt::lit>::size', 'lits'):
-        raise AnalysisBroken('%s: switch on the number of kept literals not found' % f.id)
-    cells = {}
-    for labels, st in switch_arms(sw[0]):
-        for l in labels:
-            key = l[1] if l[0] == 'case' else 'default'
-            cells[key] = st
-    want = {0: ('ReturnStmt', 'false'), 1: ('ReturnStmt', ('mcall', SC + 'enqueue', 'this', ('[]', 'lits', ('num', 0)), 'nullptr'))}
-    for k, w in want.items():
-        gotc = canon(cells.get(k), env, subst=False) if cells.get(k) else None
-        ctx.instance(rid, [f.id, 'size%s' % k], {'kept_literals': k, 'does': show(gotc)})
-        if gotc != w:
-            ctx.finding(rid, f.id, 'size%s' % k, 'sat_core::new_clause with %d literal(s) left must %s (found %s)' % (k, 'fail' if k == 0 else 'enqueue the literal', show(gotc)), node=cells.get(k) or sw[0])
-    d = cells.get('default')
-    seq = []
-    if d is not None:
-        par = f.parent(d)
-        # statements of the default arm: from the default label to the end of the switch body
-        arms = switch_arms(sw[0])
-        started = False
-        for labels, st in arms:
-            if any(l[0] == 'default' for l in labels):
-                started = True
-            if started:
-                seq.append(canon(st, env, subst=False))
-    okd = len(seq) == 2 and seq[0] == ('mcall', 'std::vector<smt::constr *>::push_back', SC + 'constrs', ('call', 'smt::clause::new_clause', 'this', 'lits')) and seq[1] == ('ReturnStmt', 'true')
-    ctx.instance(rid, [f.id, 'default'], {'does': [show(s) for s in seq]})
-    if not okd:
-        ctx.finding(rid, f.id, 'default', 'sat_core::new_clause with two or more literals must store clause::new_clause(*this, lits) in constrs and succeed', node=d or sw[0])
+    ctx.instance(rid, [f.id, 'filter'], {'cells': {''.join(k for k, v in zip('TCFD', vals) if v) or '-': c for vals, c in sorted(cells.items())}})
+    # what happens with the literals that are left: 0 -> false, 1 -> enqueue it, 2+ -> a watched clause stored in constrs, true.  Any way of branching
+    # on the size (switch, if chain, early returns) is evaluated for n = 0, 1, 2.
+    body = list(kids(f.body))
+    after = body[[i for i, x in enumerate(body) if x is loop[0] or any(y is loop[0] for y in walk(x))][0] + 1:]
+    SIZE = ('mcall', 'std::vector<smt::lit>::size', 'lits')
+    EMPTY = ('mcall', 'std::vector<smt::lit>::empty', 'lits')
+
+    def holds(c, n):
+        if c[0] == 'switch':
+            if canon(c[1], env, subst=False) != SIZE:
+                return None
+            labs = c[2]
+            if any(l[0] == 'nomatch' for l in labs):
+                return None
+            vals = [l[1] for l in labs if l[0] == 'case']
+            if n in vals:
+                return True
+            if any(l[0] == 'default' for l in labs):
+                # the default group is taken iff no case of the whole switch matches: the other cases are listed by the sibling paths; conservatively accept for n >= 2
+                return n >= 2
+            return False
+        t, pol = canon(c[1], env, subst=False), c[2]
+        if t == EMPTY:
+            return (n == 0) == pol
+        if isinstance(t, tuple) and len(t) == 3 and t[0] in ('==', '!=', '<', '<=') and SIZE in t[1:]:
+            k = [x for x in t[1:] if x != SIZE]
+            if len(k) == 1 and isinstance(k[0], tuple) and k[0][0] == 'num':
+                kv = k[0][1]
+                v = {'==': n == kv, '!=': n != kv, '<': (n < kv) if t[1] == SIZE else (kv < n), '<=': (n <= kv) if t[1] == SIZE else (kv <= n)}[t[0]]
+                return v == pol
+        return None
+    from ..tables import Path
+    taken = {}
+    for p in enum_paths({'k': 'CompoundStmt', 'c': after}):
+        for n in (0, 1, 2):
+            hs = [holds(c, n) for c in p.conds]
+            if None in hs:
+                raise AnalysisBroken('%s: the statements after the filtering loop branch on something else than the number of literals left' % f.id)
+            if all(hs):
+                taken.setdefault(n, []).append(p)
+    want = {0: [('ReturnStmt', 'false')], 1: [('ReturnStmt', ('mcall', SC + 'enqueue', 'this', ('[]', 'lits', ('num', 0)), 'nullptr'))],
+            2: [('mcall', 'std::vector<smt::constr *>::push_back', SC + 'constrs', ('call', 'smt::clause::new_clause', 'this', 'lits')), ('ReturnStmt', 'true')]}
+    for n in (0, 1, 2):
+        ps = taken.get(n, [])
+        gotc = [[canon(st, env, subst=False) for st in p.stmts if st.get('k') not in ('BreakStmt',)] for p in ps]
+        ctx.instance(rid, [f.id, 'size%s' % n], {'literals_left': n if n < 2 else '2 or more', 'does': [[show(x) for x in g] for g in gotc]})
+        shrink = lambda g: [x for x in g if not (isinstance(x, tuple) and x[0] == 'mcall' and x[1] == 'std::vector<smt::lit>::resize' and x[2] == 'lits')]
+        if len(ps) != 1 or shrink(gotc[0]) != want[n] or len(shrink(gotc[0])) != len(gotc[0]) - 1:
+            ctx.finding(rid, f.id, 'size%s' % n, 'sat_core::new_clause with %s literal(s) left must %s (found %s)' % (n if n < 2 else 'two or more', {0: 'fail', 1: 'enqueue the literal', 2: 'store clause::new_clause(*this, lits) in constrs and succeed'}[n],
+                        [[show(x) for x in g] for g in gotc]), node=loop[0])
 
 
 def r5(ctx, fs):
@@ -397,12 +450,9 @@ def r5(ctx, fs):
         if not v:
             ctx.finding(rid, f.id, k, 'sat_core::enqueue: "%s" does not hold' % k, loc=f.loc)
     first = [n for n in f.nodes() if n.get('k') == 'IfStmt'][0]
-    cv = first['slots'].get('init')
-    okv = False
-    if cv is not None:
-        d = cv['c'][0]
-        okv = canon(d['init'], env, subst=False) == ('mcall', SC + 'value', 'this', 'p') and canon(first['slots']['cond'], env, subst=False) == ('!=', ) + tuple(sorted((d['name'], 'smt::Undefined'), key=repr)) and \
-            [canon(r['c'][0], env, subst=False) for r in walk(first['slots']['then']) if r.get('k') == 'ReturnStmt'] == [d['name']]
+    VAL = ('mcall', SC + 'value', 'this', 'p')
+    okv = canon(first['slots']['cond'], env, subst=False) == ('!=', ) + tuple(sorted((VAL, 'smt::Undefined'), key=repr)) and \
+        [canon(r['c'][0], env, subst=False) for r in walk(first['slots']['then']) if r.get('k') == 'ReturnStmt'] == [VAL]
     ctx.instance(rid, [f.id, 'assigned'], {'assigned_literal_returns_its_value': okv})
     if not okv:
         ctx.finding(rid, f.id, 'assigned', 'sat_core::enqueue of an already assigned literal must return whether it is true (conflict detection)', loc=f.loc)
